@@ -75,8 +75,17 @@ PM_CLASSES = [
 ]
 
 
+def corpus_rule(d):
+    w = d['witness']
+    f = w.get('corpus_file', '?')
+    fid = 'corpus-' + f.replace('/', '-').replace('.vrl', '')
+    return (fid, f"the repository's own corpus program lib/tests/tests/{f}, run on its declared input object: {d['clause']} — expected {d['expected'][:140]}; observed {d['observed'][:140]}")
+
+
 def pm_rule(d):
     w = d['witness']
+    if str(w.get('config', '')).startswith('corpus'):
+        return corpus_rule(d)
     prog = w['program']
     last, prev = prog[-1], prog[:-1]
     for fid, pred, text in PM_CLASSES:
@@ -87,6 +96,8 @@ def pm_rule(d):
 
 def pm_rule_any(d):
     # root cause may sit in ANY statement of the path (C02/C12 observe the consequence later)
+    if str(d['witness'].get('config', '')).startswith('corpus'):
+        return corpus_rule(d)
     prog = d['witness']['program']
     txt = ' ; '.join(prog)
     if '->' in txt and 'map_keys' not in txt:
